@@ -209,5 +209,131 @@ mod __verif_c02 {
         std::mem::forget(r);
     }
 
+    /// SQL three-valued truth of a boolean literal (NULL literal = unknown)
+    #[derive(Clone, Copy, PartialEq)]
+    enum Tv {
+        T,
+        F,
+        N,
+    }
+    fn lit(t: Tv) -> Expr {
+        Expr::Literal(match t {
+            Tv::T => ScalarValue::Boolean(true),
+            Tv::F => ScalarValue::Boolean(false),
+            Tv::N => ScalarValue::Null,
+        })
+    }
+    fn tv_of(e: &Expr) -> Option<Tv> {
+        match e {
+            Expr::Literal(ScalarValue::Boolean(true)) => Some(Tv::T),
+            Expr::Literal(ScalarValue::Boolean(false)) => Some(Tv::F),
+            Expr::Literal(ScalarValue::Null) => Some(Tv::N),
+            _ => None,
+        }
+    }
+    fn and3(a: Tv, b: Tv) -> Tv {
+        if a == Tv::F || b == Tv::F { Tv::F } else if a == Tv::T && b == Tv::T { Tv::T } else { Tv::N }
+    }
+    fn or3(a: Tv, b: Tv) -> Tv {
+        if a == Tv::T || b == Tv::T { Tv::T } else if a == Tv::F && b == Tv::F { Tv::F } else { Tv::N }
+    }
+
+    /// fold `l op r` where both operands are boolean/NULL literals; the operands live in locals and the parent only
+    /// borrows their addresses (never dropped), so CBMC reads their variant tags as constants (DESIGN §0)
+    fn fold_logic_case(a: Tv, b: Tv, is_and: bool) {
+        let (mut l, mut r) = (lit(a), lit(b));
+        let e = std::mem::ManuallyDrop::new(Expr::BinaryExpr {
+            left: unsafe { Box::from_raw(&mut l as *mut Expr) },
+            op: if is_and { BinaryOp::And } else { BinaryOp::Or },
+            right: unsafe { Box::from_raw(&mut r as *mut Expr) },
+        });
+        let out = ConstantFolding.fold_expr(&e);
+        let want = if is_and { and3(a, b) } else { or3(a, b) };
+        // the folder may leave the expression unevaluated (still a BinaryExpr), but whatever literal it produces must
+        // be the Kleene result: NULL AND FALSE = FALSE, NULL OR TRUE = TRUE, NULL AND TRUE = NULL, ...
+        if let Some(got) = tv_of(&out) {
+            assert!(got == want, "C02.folded_and_or_is_kleene");
+        } else {
+            assert!(matches!(out, Expr::BinaryExpr { .. }), "C02.unfolded_and_or_is_left_alone");
+        }
+        std::mem::forget(out);
+        std::mem::forget((l, r));
+    }
+
+    // @harness tiers=quick,thorough timeout=900
+    // @encodes optimizer::rules::constant_folding::ConstantFolding::fold_expr, optimizer::rules::constant_folding::ConstantFolding::eval_binary, optimizer::rules::constant_folding::ConstantFolding::eval_bool
+    // @bounds `l AND r` and `l OR r` for all 9 pairs of literals in {TRUE, FALSE, NULL} (iterated concretely: 18 expressions)
+    // @oracle Kleene three-valued AND / OR: any literal the folder produces is the SQL result (NULL AND FALSE folds to FALSE, NULL OR TRUE to TRUE; x AND TRUE / x OR FALSE fold to x)
+    #[kani::proof]
+    #[kani::unwind(2)]
+    fn fold_and_or_over_boolean_and_null_literals() {
+        let mut folded = 0u32;
+        macro_rules! both {
+            ($a:expr, $b:expr) => {
+                fold_logic_case($a, $b, true);
+                fold_logic_case($a, $b, false);
+                folded += 2;
+            };
+        }
+        both!(Tv::T, Tv::T);
+        both!(Tv::T, Tv::F);
+        both!(Tv::T, Tv::N);
+        both!(Tv::F, Tv::T);
+        both!(Tv::F, Tv::F);
+        both!(Tv::F, Tv::N);
+        both!(Tv::N, Tv::T);
+        both!(Tv::N, Tv::F);
+        both!(Tv::N, Tv::N);
+        kani::cover!(folded == 18);
+    }
+
+    /// fold `c op lit` / `lit op c` where `c` is a column (any truth value at run time): whatever the folder returns
+    /// must denote the Kleene result for EVERY value of c
+    fn fold_column_case(t: Tv, is_and: bool, col_left: bool) {
+        let (mut c, mut k) = (Expr::Column(crate::planner::Column::new("c")), lit(t));
+        let (lp, rp) = if col_left { (&mut c as *mut Expr, &mut k as *mut Expr) } else { (&mut k as *mut Expr, &mut c as *mut Expr) };
+        let e = std::mem::ManuallyDrop::new(Expr::BinaryExpr {
+            left: unsafe { Box::from_raw(lp) },
+            op: if is_and { BinaryOp::And } else { BinaryOp::Or },
+            right: unsafe { Box::from_raw(rp) },
+        });
+        let out = ConstantFolding.fold_expr(&e);
+        let f = |x: Tv| if is_and { and3(x, t) } else { or3(x, t) };
+        if let Some(got) = tv_of(&out) {
+            // folded to a literal: must be right whatever the column holds
+            assert!(f(Tv::T) == got && f(Tv::F) == got && f(Tv::N) == got, "C02.column_and_or_literal_folds_only_when_the_column_is_irrelevant");
+        } else if matches!(out, Expr::Column(_)) {
+            // folded to the column itself: the literal must be the neutral element
+            assert!(f(Tv::T) == Tv::T && f(Tv::F) == Tv::F && f(Tv::N) == Tv::N, "C02.column_and_or_literal_folds_to_the_column_only_for_the_neutral_literal");
+        } else {
+            assert!(matches!(out, Expr::BinaryExpr { .. }), "C02.unfolded_and_or_is_left_alone");
+        }
+        std::mem::forget(out);
+        std::mem::forget((c, k));
+    }
+
+    // @harness tiers=quick,thorough timeout=900
+    // @encodes optimizer::rules::constant_folding::ConstantFolding::fold_expr
+    // @bounds `c AND lit`, `lit AND c`, `c OR lit`, `lit OR c` for a column c and lit in {TRUE, FALSE, NULL} (12 expressions, iterated concretely)
+    // @oracle the rewrite is sound for every run-time truth value of c in {TRUE, FALSE, NULL} (Kleene): folding to a literal only when c is irrelevant (c AND FALSE, c OR TRUE), to c only for the neutral literal (c AND TRUE, c OR FALSE); `c AND NULL` / `c OR NULL` must not be folded to anything
+    #[kani::proof]
+    #[kani::unwind(2)]
+    fn fold_and_or_with_a_column_operand() {
+        let mut n = 0u32;
+        macro_rules! four {
+            ($t:expr) => {
+                fold_column_case($t, true, true);
+                fold_column_case($t, true, false);
+                fold_column_case($t, false, true);
+                fold_column_case($t, false, false);
+                n += 4;
+            };
+        }
+        four!(Tv::T);
+        four!(Tv::F);
+        four!(Tv::N);
+        kani::cover!(n == 12);
+    }
+
     // @playback
 }
